@@ -9,6 +9,7 @@ import QV.Drive.C18
 import QV.Drive.C16
 import QV.Drive.C17
 import QV.Drive.C13
+import QV.Drive.C15
 /-! `qvdriver`: one JSON request per input line, one JSON reply per output line. -/
 open Lean
 
@@ -24,7 +25,8 @@ def dispatch (j : Json) : Except String Json := do
     QV.Drive.C18.handle,
     QV.Drive.C16.handle,
     QV.Drive.C17.handle,
-    QV.Drive.C13.handle
+    QV.Drive.C13.handle,
+    QV.Drive.C15.handle
   ]
   for h in handlers do
     if let some r := h op j then return ← r
